@@ -222,6 +222,13 @@ class Module:
             for al in st.names:
                 if not al.name.startswith(PKG):
                     self.ext_imports[al.asname or al.name.split(".")[0]] = (al.name if al.asname else al.name.split(".")[0], None)
+        elif isinstance(st, ast.If) and isinstance(st.test, ast.Compare) and len(st.test.ops) == 1 and isinstance(st.test.ops[0], (ast.Eq, ast.NotEq)) \
+                and ast.unparse(st.test.left) == "sys.byteorder" and isinstance(st.test.comparators[0], ast.Constant):
+            # a module-level definition that depends on the host's byte order: the analysis reads the branch taken on a little-endian host (every
+            # platform the library's wheels are built for), and says so here rather than mixing the two definitions
+            taken = ("little" == st.test.comparators[0].value) == isinstance(st.test.ops[0], ast.Eq)
+            for sub in (st.body if taken else st.orelse):
+                self._index_stmt(sub, prefix)
         elif isinstance(st, (ast.Try, ast.If)):
             # e.g. try: from buidl.cecc import * except: from buidl.pecc import *
             for sub in ast.iter_child_nodes(st):
